@@ -60,7 +60,7 @@ fn gen_fledger(r: &mut Rng, last: NaiveDate) -> Vec<FTx> {
     let mut date = base;
     let mut pos = Decimal::ZERO;
     for _ in 0..n {
-        date = date + Duration::days(*r.pick(&[0i64, 0, 1, 1, 2, 5, 20, 31, 45]));
+        date = date + Duration::days(*r.pick(&[0i64, 0, 1, 1, 2, 5, 20, 31, 45, 365, 366, 730]));   // incl. the same month of another year
         let pick_cur = |r: &mut Rng| -> &'static str { if r.chance(1, 40) { "XTS" } else { *r.pick(&CURS[..6]) } };
         let k = match r.below(10) { 0..=3 => Kind::Buy, 4..=6 => Kind::Sell, 7 => Kind::Dividend, 8 => Kind::Accumulation, _ => Kind::CapReturn };
         let q = Decimal::from(r.range(1, 100));
